@@ -15,6 +15,7 @@ use hyperqueue::server::Senders;
 use hyperqueue::server::autoalloc::create_autoalloc_service;
 use hyperqueue::server::client::client_rpc_loop;
 use hyperqueue::server::event::Event;
+use hyperqueue::server::event::journal::EventStreamMessage;
 use hyperqueue::server::event::payload::EventPayload;
 use hyperqueue::server::event::streamer::{EventFilter, EventStreamer};
 use hyperqueue::server::job::JobTaskState;
@@ -66,6 +67,7 @@ pub struct JobSnap {
     pub tasks: Vec<(u32, char)>,
     /// `job_status` of the client library on the JobInfo of this job (or "!panic")
     pub status: &'static str,
+    pub max_fails: Option<u32>,
 }
 
 pub fn status_name(s: hyperqueue::client::status::Status) -> &'static str {
@@ -116,6 +118,7 @@ pub fn snapshot_jobs(state_ref: &StateRef) -> Vec<JobSnap> {
                     job.counters.n_aborted_tasks,
                 ],
                 tasks,
+                max_fails: job.job_desc.max_fails,
                 status: {
                     let info = job.make_job_info(false);
                     crate::util::catch(|| hyperqueue::client::status::job_status(&info)).map(status_name).unwrap_or("!panic")
@@ -334,6 +337,8 @@ pub struct World {
     pub sent: Vec<(u32, ToWorkerMessage)>,
     /// RetractResponse messages emitted by workers since the last drain: (worker, retracted ids)
     pub gave_back: Vec<(u32, Vec<TaskId>)>,
+    /// with `WorldConfig::journal`: every event the real `EventStreamer` handed to the journal writer, in order
+    pub journal: Rc<RefCell<Vec<Event>>>,
     _tmp: tempfile::TempDir,
 }
 
@@ -362,7 +367,29 @@ impl World {
             start_date: chrono::Utc::now(),
             journal_path: None,
         });
-        let events = EventStreamer::new(None);
+        let journal: Rc<RefCell<Vec<Event>>> = Default::default();
+        let events = if cfg.journal {
+            // journal sink: stands in for `start_event_streaming` (the writer task); records what would be persisted
+            let (jtx, mut jrx) = tokio::sync::mpsc::unbounded_channel::<EventStreamMessage>();
+            let sink = journal.clone();
+            local.spawn_local(async move {
+                while let Some(m) = jrx.recv().await {
+                    match m {
+                        EventStreamMessage::Event(e) => sink.borrow_mut().push(e),
+                        EventStreamMessage::FlushJournal(cb) => {
+                            let _ = cb.send(());
+                        }
+                        EventStreamMessage::PruneJournal { callback, .. } => {
+                            let _ = callback.send(());
+                        }
+                        EventStreamMessage::ReplayJournal(_) => {}
+                    }
+                }
+            });
+            EventStreamer::new(Some(jtx))
+        } else {
+            EventStreamer::new(None)
+        };
         let (etx, erx) = tokio::sync::mpsc::unbounded_channel::<Event>();
         events.register_listener(EventFilter::all_events(), etx);
         let erx: EventRx = Rc::new(RefCell::new(erx));
@@ -410,6 +437,7 @@ impl World {
             now_ms: 0,
             sent: Vec::new(),
             gave_back: Vec::new(),
+            journal,
             _tmp: tmp,
         }
     }
